@@ -60,7 +60,8 @@ DYN_SPANS = ['req', 'conn', 'job']
 DYN_FIELDSETS = ['-', 'id', 'id+ok']
 def _gen_val(rng, name):
     if name == 'ok': return rng.choice(['true', 'false', 'true'])
-    return rng.choice(['7', '7', '8', '0', '-3', 'seven'])
+    # integers, f64 literals that are multiples of 1/4 (so `|v - e| < EPSILON` is equality), a string
+    return rng.choice(['7', '7', '8', '0', '-3', 'seven', '0.5', '1.5', '0.25', '-3.0', '7.0', '2.75', '0.5'])
 def gen_dyn_directives(rng):
     ds = []
     for _ in range(rng.choice([1, 2, 2, 3, 4])):
@@ -110,7 +111,7 @@ def gen_dyn_case(rng):
             ops.append('ex %d' % stack.pop())                                   # well nested: the most recently entered span exits first
         elif r < 0.92 and live:
             k = rng.choice(live)
-            ops.append('rc %d %s' % (k, rng.choice(['id=7', 'id=8', 'ok=true', 'ok=false', 'id=7+ok=true', 'id=-3'])))
+            ops.append('rc %d %s' % (k, rng.choice(['id=7', 'id=8', 'ok=true', 'ok=false', 'id=7+ok=true', 'id=-3', 'id=0.5', 'id=1.5', 'id=0.25', 'id=-3.0', 'id=7.0', 'id=2.75'])))
         elif live:
             cand = [k for k in live if k not in stack]
             if cand: k = rng.choice(cand); ops.append('cl %d' % k); live.remove(k)
